@@ -1,6 +1,7 @@
 import SpoxModel.Lemmas.Subgraph
 import SpoxModel.Generated.SubgraphSpecs
 import SpoxModel.Generated.CallbackSites
+import SpoxModel.Generated.CallGraphData
 /-!
 # C19 — subgraph callbacks run exactly once, with the prescribed arguments
 
@@ -56,6 +57,29 @@ def extra : List String :=
     calls `_reconstruct` or reads `_constructor`. -/
 theorem sites_good : extra = [] ∧ "spox._graph.subgraph" ∈ Generated.CallbackSites.invokers := by
   decide
+
+/-- The call graph of `src/spox` extracted on this run. -/
+abbrev cg : CallGraph.Graph := Generated.CallGraphData.graph
+
+/-- Certificate check for the generated call graph: the translator's set of functions contains every
+    entry point (build, inference, value propagation, inspection, copy / pickle hooks, Graph methods,
+    inlining, Var methods), is closed under every call edge, and contains no function that invokes
+    (or lets escape) a stored callback. -/
+theorem callgraph_safe : cg.safe Generated.CallGraphData.reachMask = true := by decide +kernel
+
+/-- **No path to a stored callback.** In the call graph of /repo as it is now, no function that
+    invokes a stored callback (`subgraph`, `Graph._reconstruct`, anything reading `_constructor`) is
+    reachable from any entry point of a later step. (`Reach` is the inductive reachability relation
+    over the generated edge list.) -/
+theorem no_callback_reachable (es : List Nat) (hes : ∀ e ∈ es, e ∈ cg.allEntries) (x : Nat)
+    (hx : CallGraph.Reach cg.edges es x) : x ∉ cg.sinks := by
+  intro hmem
+  have h1 := reach_in_mask cg _ callgraph_safe es hes x hx
+  have h2 : CallGraph.inMask Generated.CallGraphData.reachMask x = false := by
+    have := callgraph_safe
+    simp only [CallGraph.Graph.safe, Bool.and_eq_true, List.all_eq_true] at this
+    simpa using this.2 x hmem
+  rw [h1] at h2; cases h2
 
 theorem spec_of_table {m c : String} {s : CtorSpec} (h : (m, c, s) ∈ table) : s ∈ accepted c := by
   have := List.all_eq_true.1 generated_good (m, c, s) h
@@ -121,6 +145,33 @@ theorem args_prescribed_scan_partial {m : String} {s : CtorSpec} (h : (m, "scan"
   rw [hax']
   exact construct_single_world "body" scanTypes "body" 0 env cbs w _
     (eval_scan env ops k hk hl hi) hc
+
+/-- What the code does with Scan's other attributes: the body's argument types depend only on the
+    operands and `num_scan_inputs` — `scan_input_axes`, `scan_input_directions`, `scan_output_axes`
+    and `scan_output_directions` are not looked at (for ONNX only `scan_input_axes` matters here:
+    directions do not change types, `scan_output_axes` only the operator's outputs). -/
+theorem scan_args_ignore_attributes {m : String} {s : CtorSpec} (h : (m, "scan", s) ∈ table)
+    (env env' : Env) (hl : env.lists = env'.lists)
+    (hi : env.ints "num_scan_inputs" = env'.ints "num_scan_inputs") :
+    s.subgraphs.map (fun p => evalList env p.2) = s.subgraphs.map (fun p => evalList env' p.2) := by
+  have hs' : s = scanSpec := by
+    have := spec_of_table h; simpa [accepted] using this
+  subst hs'
+  simp [scanSpec, scanTypes, evalList, evalSrc, scanSplit, evalIdx, hl, hi, evalTy, lookupVar, stripFirst]
+
+/-- Exactly when the code agrees with ONNX for arbitrary `scan_input_axes`: iff removing the
+    prescribed axis from every scan input gives the same shape as removing axis 0 (default axes,
+    unknown shapes, or dimensions that happen to coincide). -/
+theorem args_prescribed_scan_iff (env : Env) (ops : List TensorT) (k : Nat) (hk : k ≤ ops.length)
+    (hl : env.lists "initial_state_and_scan_inputs" = ops.map (fun t => some t.ty))
+    (hi : env.ints "num_scan_inputs" = (k : Int)) (axes : Option (List Int)) :
+    evalList env scanTypes = .ok (scanPresc ops k axes)
+      ↔ stripAxes (ops.drop (ops.length - k)) (axes.getD []) = stripAxes (ops.drop (ops.length - k)) [] := by
+  rw [eval_scan env ops k hk hl hi]
+  simp only [scanPresc, Except.ok.injEq, Option.getD_none]
+  constructor
+  · intro h; exact (List.append_cancel_left h).symm
+  · intro h; rw [h]
 
 /-- **Loop** (every shipped module), any number of carried values of any type (tensor, sequence,
     optional): the body receives `(iteration: int64, condition: bool, carried types unchanged)`, in
@@ -206,12 +257,14 @@ theorem args_fresh (calls : List (CtorSpec × Env × Callbacks)) :
 /-! ## `called_once` -/
 
 /-- **Called once.** After a successful constructor call and *any* sequence of builds, inference
-    re-runs, value propagation and inspection, every callback has been invoked exactly as often as
-    it was passed to the constructor (once per role) — for the call sites as they are in /repo now. -/
+    re-runs, value propagation, inspection, copies, Graph-method calls, inlining and Var-method calls
+    — each step running whatever is reachable from its entry functions in the call graph extracted
+    from /repo — every callback has been invoked exactly as often as it was passed to the
+    constructor (once per role). -/
 theorem called_once (spec : CtorSpec) (env : Env) (cbs : Callbacks) (w w1 : World) (node : Node)
     (h : construct spec env cbs w = (.ok node, w1)) (steps : List Step) (c : Nat) :
-    (runSteps extra node steps w1).count c = w.count c + (cbIds cbs spec.subgraphs).count c := by
-  rw [sites_good.1, runSteps_nil]
+    (runSteps cg node steps w1).count c = w.count c + (cbIds cbs spec.subgraphs).count c := by
+  rw [runSteps_safe cg _ callgraph_safe]
   unfold construct at h
   generalize hrs : runSubgraphs env cbs spec.subgraphs w = r at h
   obtain ⟨res, w'⟩ := r
@@ -230,7 +283,7 @@ theorem called_once (spec : CtorSpec) (env : Env) (cbs : Callbacks) (w w1 : Worl
 theorem called_exactly_once (spec : CtorSpec) (env : Env) (cbs : Callbacks) (w w1 : World) (node : Node)
     (h : construct spec env cbs w = (.ok node, w1)) (steps : List Step) (c : Nat)
     (hnew : w.count c = 0) (hrole : (cbIds cbs spec.subgraphs).count c = 1) :
-    (runSteps extra node steps w1).count c = 1 := by
+    (runSteps cg node steps w1).count c = 1 := by
   rw [called_once spec env cbs w w1 node h steps c, hnew, hrole]
 
 /-- Also when the constructor raises (a later callback is malformed, a type expression fails), no
@@ -247,13 +300,13 @@ theorem called_at_most_once (spec : CtorSpec) (env : Env) (cbs : Callbacks) (w :
     simp only at this ⊢
     cases lookupGraph gs spec.outGraph <;> exact this
 
-/-- Had a build path re-run the stored constructor (`_reconstruct`), one build after an If would
-    bring each branch to two invocations. -/
+/-- Had a build path re-run the stored constructor (an edge from a build entry point to
+    `_reconstruct`), one build after an If would bring each branch to two invocations. -/
 theorem reconstruct_counterexample :
     let cbs : Callbacks := fun nm => if nm = "else_branch" then (0, .returnsVars 1) else (1, .returnsVars 1)
     let r := construct ifSpec (envOf [] [] []) cbs ⟨[], 0⟩
-    r.1.toOption.map (fun node =>
-      (runSteps ["spox._graph.Graph.to_onnx"] node [.build] r.2).count 0) = some 2 := by
+    let g : CallGraph.Graph := ⟨3, [(0, 1), (1, 2)], [2], [("build", [0])]⟩
+    r.1.toOption.map (fun node => (runSteps g node [.build] r.2).count 0) = some 2 := by
   decide
 
 /-! ## `out_count` -/
@@ -345,7 +398,7 @@ example :
     let env := envOf [("v_initial", [some (f32 [2]).ty, some (.seq (f32 []).ty)])] [] []
     let r := construct v21_loop env cbs ⟨[], 0⟩
     r.1.toOption.map (fun node => (node.outVariadic,
-        (runSteps extra node [.build, .infer, .build, .valueProp, .build] r.2).count 5)) = some (2, 1)
+        (runSteps ⟨1, [], [], [("build", [0])]⟩ node [.build, .infer, .build, .valueProp, .copy, .inline, .build] r.2).count 5)) = some (2, 1)
       ∧ r.2.events.map (·.args) = [[0, 1, 2, 3]] := by
   decide
 
